@@ -37,7 +37,7 @@ ASSUME = [
     "version heads are non-empty between two steps and the plan is not empty when starting from base (true of real plans)",
     "SQLite only; columns are nullable and constraint-free; statements that are not applicable abort both runs",
 ]
-RULE = ("seeded generation: histories of 1-6 revisions (linear, branched, merges, several bases, depends_on), upgrade ranges "
+RULE = ("quick 700 / thorough 10000 cases.  seeded generation: histories of 1-6 revisions (linear, branched, merges, several bases, depends_on), upgrade ranges "
         "start:end (start = base or a revision, end = revision/head(s)/+N) and downgrade ranges from:to (to = base, ancestor, -N); "
         "bodies over create_table/drop_table/add_column/create_index/drop_index/bulk_insert/execute with values from "
         "{quotes, backslashes, NULL, unicode, ints, big ints, decimals, floats, dates, datetimes, booleans, ';', newlines, "
@@ -405,15 +405,24 @@ FINDING_EMPTY_VT = "C12-empty-version-table-at-base"
 
 def generate(tier, seed):
     rnd = random.Random(seed * 7919 + 12)
-    n = 320 if tier == "quick" else 9000
+    n = 700 if tier == "quick" else 10000
+    # str.strip() / replace("\t") on the raw statement: every code point for which str.isspace() holds, its neighbours,
+    # and a few others, each at both ends of a statement and in the middle (deterministic, carried by the first cases)
+    ws = [9, 10, 11, 12, 13, 28, 29, 30, 31, 32, 0x85, 0xa0, 0x1680, 0x2028, 0x2029, 0x202f, 0x205f, 0x3000] + list(range(0x2000, 0x200b))
+    pts = sorted(set(c + d for c in ws for d in (-1, 0, 1)) | {0x180e, 0xfeff, 0x200b, 0x200c, 0x2060, 0x1d, 0x7f, 0x1c})
+    pts = [c for c in pts if c > 0]
+    specials = [chr(c) + "a" + chr(c) + "b" + chr(c) for c in pts] + [chr(c) for c in ws[:6]] + ["", "\t\t", " \t x\t'\t' \t"]
     for k in range(n):
-        yield gen_history(rnd, tier, tabs=False, invalid=(k % 20 == 7))
+        h = gen_history(rnd, tier, tabs=False, invalid=(k % 20 == 7))
+        if k < len(specials):
+            h["raw"] = specials[k]
+        yield h
     # the known deviations (DESIGN section 6): generated only once they are recorded in known_findings.json (or when
     # C12_WITH_FINDINGS=1), so that they print KNOWN-FINDING; the decider is at full strength on them
     force = os.environ.get("C12_WITH_FINDINGS") == "1"
     if force or _registered(FINDING_TAB):
         yield WITNESS_TAB
-        for k in range(20 if tier == "quick" else 300):
+        for k in range(40 if tier == "quick" else 400):
             yield gen_history(rnd, tier, tabs=True)
     if force or _registered(FINDING_EMPTY_PLAN):
         yield WITNESS_EMPTY_PLAN
